@@ -312,6 +312,12 @@ func runSeq(c core.Case, prop string, reopen bool) core.Result {
 			d.cfg.MemtableByteThreshold = []int{1, 64, 300, 1000}[r.Intn(4)]
 		}
 	}
+	if c.Int("deep", 0) == 1 {
+		// one table per level: with moving key windows the tree grows a level per flush and reaches
+		// two-digit level numbers within a case
+		d.cfg.L0TargetNum, d.cfg.LevelRatio = 1, 1
+		d.cfg.MemtableByteThreshold = []int{1, 64, 300}[r.Intn(3)]
+	}
 	if reopen && c.Str("delay", "") == "slow-flusher" {
 		// Close with several memtables still waiting IN the flush queue needs room in the queue
 		d.cfg.ImmutableBuffer = []int{2, 4, 8}[r.Intn(3)]
@@ -618,6 +624,12 @@ func genSeq(tier string, seed int64, prop string, nQuick, nThorough int) []core.
 		if prop == "C02" && i%4 == 2 {
 			c.N["pathspell"] = 1
 		}
+		if prop == "C02" && i%8 == 5 {
+			c.N["deep"] = 1
+			c.S["keys"] = "windowed"
+			c.S["drain"] = "always"
+			c.S["delay"] = "none"
+		}
 		if i%8 == 3 {
 			c.N["tsbase"] = int64(1 + (i/8)%5)
 		}
@@ -645,7 +657,7 @@ func init() {
 	})
 	core.Register(&core.Check{
 		Prop: "C02", Level: "exploration",
-		Rule:      "case = a C01 program with Close/Open cycles: periodically, right after a commit that rotated the memtable (then possibly once more with an empty memtable), with a non-empty flush queue, directly after Open, and at the end; every parameter except L0TargetNum/LevelRatio is re-drawn per incarnation; every fourth case uses a directory name with unusual characters ([1], *, ?, @, %, spaces, .db/.log/.tmp endings) and spells the path differently at each Open (trailing slash, /./, relative path); after each reopen all keys are read against the model, then (half of the time) every key is overwritten and read again; non-trivial = >=2 reopens of which >=1 over a directory with tables on >=2 levels; distinct by case parameters",
+		Rule:      "case = a C01 program with Close/Open cycles: periodically, right after a commit that rotated the memtable (then possibly once more with an empty memtable), with a non-empty flush queue, directly after Open, and at the end; every parameter except L0TargetNum/LevelRatio is re-drawn per incarnation; every eighth case builds a deep tree (one table per level, moving key windows: two-digit level numbers) before its reopens; every fourth case uses a directory name with unusual characters ([1], *, ?, @, %, spaces, .db/.log/.tmp endings) and spells the path differently at each Open (trailing slash, /./, relative path); after each reopen all keys are read against the model, then (half of the time) every key is overwritten and read again; non-trivial = >=2 reopens of which >=1 over a directory with tables on >=2 levels; distinct by case parameters",
 		Gen:       func(tier string, seed int64) []core.Case { return genSeq(tier, seed, "C02", 64, 500) },
 		Run:       func(c core.Case) core.Result { return runSeq(c, "C02", true) },
 		BatchSize: 4, GoMaxProcs: 2, Parallel: 8,
